@@ -31,15 +31,15 @@ type TupleV []Val
 type PtrKind int
 
 const (
-	PLocal PtrKind = iota // local cell
-	PObj                  // struct or array object: Ref
-	PField                // scalar-ish field Field of struct object Ref (type StructT)
-	PElem                 // scalar-ish element Idx (absolute) of backing array Ref
-	PBox                  // heap cell holding a scalar-ish value of type Elem
-	PView                 // array view [N]T over backing array Ref starting at Idx
-	PGlobal               // package-level variable
-	PLocalPath            // part of a non-escaping local struct/array kept as a value: Alloc + field path (+ Idx)
-	PElemIn               // element Idx2 of the array-valued element Idx of backing array Ref
+	PLocal     PtrKind = iota // local cell
+	PObj                      // struct or array object: Ref
+	PField                    // scalar-ish field Field of struct object Ref (type StructT)
+	PElem                     // scalar-ish element Idx (absolute) of backing array Ref
+	PBox                      // heap cell holding a scalar-ish value of type Elem
+	PView                     // array view [N]T over backing array Ref starting at Idx
+	PGlobal                   // package-level variable
+	PLocalPath                // part of a non-escaping local struct/array kept as a value: Alloc + field path (+ Idx)
+	PElemIn                   // element Idx2 of the array-valued element Idx of backing array Ref
 )
 
 type PtrV struct {
@@ -1294,4 +1294,3 @@ type pendingFam struct {
 	t     *Term
 	epoch int
 }
-
